@@ -290,17 +290,18 @@ func (g *stepGen) next() []any {
 				nn = "/.."
 			}
 		}
+		if r.Intn(2) == 0 { // one Twstat that renames and also sets length / mode / mtime
+			ln, pm, mt := g.wstatFields(F, 1+r.Intn(7))
+			return []any{"Wstat", ff, nn, ln, pm, mt}
+		}
 		return []any{"Rename", ff, nn}
 	case w < 88:
-		sz := 0
-		if s, err := StatPath(g.c.B, F.Path, true); err == nil {
-			sz = int(s.Size)
+		if r.Intn(3) == 0 { // several fields, no rename
+			ln, pm, mt := g.wstatFields(F, []int{3, 5, 6, 7}[r.Intn(4)])
+			return []any{"Wstat", ff, "", ln, pm, mt}
 		}
-		n := []int{0, sz - 1, sz, sz + 1, sz + 100, 1}[r.Intn(6)]
-		if n < 0 {
-			n = 0
-		}
-		return []any{"Truncate", ff, float64(n)}
+		ln, _, _ := g.wstatFields(F, 1)
+		return []any{"Truncate", ff, ln}
 	case w < 92:
 		return []any{"Chmod", ff, float64(somePerms[r.Intn(len(somePerms))])}
 	case w < 95:
@@ -309,6 +310,30 @@ func (g *stepGen) next() []any {
 		return []any{"Write", ff, float64(r.Intn(80)), float64(1 + r.Intn(40))}
 	}
 	return []any{"Clunk", ff}
+}
+
+// wstatFields: values for the fields selected by mask (1 length, 2 mode, 4 mtime), "don't touch" otherwise.
+func (g *stepGen) wstatFields(F *TFid, mask int) (ln, pm, mt float64) {
+	r := g.r
+	ln, pm, mt = -1, -1, 0
+	if mask&1 != 0 {
+		sz := 0
+		if s, err := StatPath(g.c.B, F.Path, true); err == nil {
+			sz = int(s.Size)
+		}
+		n := []int{0, sz - 1, sz, sz + 1, sz + 100, 1}[r.Intn(6)]
+		if n < 0 {
+			n = 0
+		}
+		ln = float64(n)
+	}
+	if mask&2 != 0 {
+		pm = float64(somePerms[r.Intn(len(somePerms))])
+	}
+	if mask&4 != 0 {
+		mt = float64(2 + r.Intn(8))
+	}
+	return
 }
 
 // ---------------------------------------------------------------- the real client on deep paths
